@@ -47,6 +47,10 @@ pub fn run(r: &mut Report) {
         C { id: "modify-unchanged-not-consumed", ap: vec![], bm: vec![("f", 1)], bp: vec![("f", 1)], rules: allow_all(), prules: vec![ArtifactRule::Modify(vp("f")), dis()], expect: false },
         C { id: "require-missing", ap: vec![], bm: vec![("f", 1)], bp: vec![], rules: vec![ArtifactRule::Require(vp("g")), ArtifactRule::Allow(vp("*"))], prules: allow_all(), expect: false },
         C { id: "require-present", ap: vec![], bm: vec![("f", 1)], bp: vec![], rules: vec![ArtifactRule::Require(vp("f")), ArtifactRule::Allow(vp("*"))], prules: allow_all(), expect: true },
+        C { id: "require-on-empty-queue", ap: vec![], bm: vec![], bp: vec![], rules: vec![ArtifactRule::Require(vp("f"))], prules: allow_all(), expect: false },
+        C { id: "require-after-everything-consumed", ap: vec![], bm: vec![("g", 1)], bp: vec![], rules: vec![ArtifactRule::Allow(vp("*")), ArtifactRule::Require(vp("f"))], prules: allow_all(), expect: false },
+        C { id: "non-normalized-path-with-match-no-panic", ap: vec![("f", 1)], bm: vec![("./f", 1)], bp: vec![], rules: vec![mtch("f", None, Artifact::Products, None, "a"), ArtifactRule::Allow(vp("*"))], prules: allow_all(), expect: true },
+        C { id: "non-normalized-dst-path-with-match-no-panic", ap: vec![("a/../f", 1)], bm: vec![("f", 1)], bp: vec![], rules: vec![mtch("*", None, Artifact::Products, None, "a"), ArtifactRule::Allow(vp("*"))], prules: allow_all(), expect: true },
         C { id: "non-normalized-path-no-panic", ap: vec![], bm: vec![("./f", 1)], bp: vec![("./f", 2)], rules: allow_all(), prules: allow_all(), expect: true },
     ];
     for c in cases {
